@@ -554,8 +554,23 @@ class RDFLibJellyParser(RDFLibParser):
         if inp is None:
             msg = "expected source to be a stream of bytes"
             raise TypeError(msg)
+        # The views created over the caller's store share the caller's namespace
+        # manager: a fresh one would bind rdflib's default prefixes into the store
+        # behind the caller's back as soon as the first declaration is bound.
+        def graph_factory() -> Graph:
+            return Graph(
+                store=sink.store,
+                identifier=sink.identifier,
+                namespace_manager=sink.namespace_manager,
+            )
+
+        def dataset_factory() -> Dataset:
+            dataset = Dataset(store=sink.store)
+            dataset.namespace_manager = sink.namespace_manager
+            return dataset
+
         parse_jelly_to_graph(
             inp,
-            graph_factory=lambda: Graph(store=sink.store, identifier=sink.identifier),
-            dataset_factory=lambda: Dataset(store=sink.store),
+            graph_factory=graph_factory,
+            dataset_factory=dataset_factory,
         )
